@@ -16,6 +16,7 @@ from ..properties import (
     OpenVocabProperty, PatternProperty, ReferenceProperty, StringProperty,
     TimestampProperty, TypeProperty,
 )
+from ..registration import _unregister_extension
 from ..utils import NOW
 from .base import _DomainObject
 from .common import (
@@ -873,6 +874,12 @@ def CustomObject(type='x-custom-type', properties=None, extension_name=None, is_
             extension = extension.replace('-', '')
             NameExtension.__name__ = 'ExtensionDefinition' + extension
             cls.with_extension = extension_name
-        return _custom_object_builder(cls, type, _properties, '2.1', _DomainObject)
+        try:
+            return _custom_object_builder(cls, type, _properties, '2.1', _DomainObject)
+        except Exception:
+            # The type was refused: don't leave its extension behind.
+            if extension_name:
+                _unregister_extension(extension_name, '2.1')
+            raise
 
     return wrapper
